@@ -1,6 +1,7 @@
 package main
 
 import (
+	"encoding/json"
 	"flag"
 	"fmt"
 	"os"
@@ -15,6 +16,23 @@ type Ctx struct {
 	Findings map[string]Finding
 	Replay   string
 	Corpus   string
+	OutPath  string
+}
+
+// Pending announces a case that could kill the process in a way no recover can catch (Go stack
+// overflow); if the harness dies, ./check takes the announced case as the failing input.
+func (c *Ctx) Pending(v any) {
+	if c.OutPath == "" {
+		return
+	}
+	b, _ := json.Marshal(v)
+	os.WriteFile(c.OutPath+".pending", b, 0o644)
+}
+
+func (c *Ctx) PendingDone() {
+	if c.OutPath != "" {
+		os.Remove(c.OutPath + ".pending")
+	}
 }
 
 func (c *Ctx) Thorough() bool { return c.Tier == "thorough" }
@@ -47,7 +65,7 @@ func main() {
 		os.Exit(2)
 	}
 	defer m.Close()
-	ctx := &Ctx{Tier: *tier, Seed: *seed, Model: m, RNG: NewRNG(*seed), Replay: *replay, Corpus: *corpus}
+	ctx := &Ctx{Tier: *tier, Seed: *seed, Model: m, RNG: NewRNG(*seed), Replay: *replay, Corpus: *corpus, OutPath: *out}
 	ctx.Rep = NewReport(name, *tier, *seed)
 	ctx.Rep.ModelUsed = m != nil
 	ctx.Findings = LoadFindings(*findings, name)
